@@ -14,8 +14,16 @@ PRED = {}
 
 
 def pred(f):
-    PRED[f.__name__] = f
-    return f
+    # a predicate that cannot evaluate a case (an infinity or NaN where it expects a number, a result of another shape) does not
+    # recognise it: the case then stays unexplained and is reported, it never takes the run down
+    def safe(c):
+        try:
+            return bool(f(c))
+        except Exception:
+            return False
+    safe.__name__ = f.__name__; safe.__doc__ = f.__doc__
+    PRED[f.__name__] = safe
+    return safe
 
 
 @pred
@@ -509,3 +517,18 @@ def fixpnt_assign_not_0b_string(c):
     """fixpnt::assign on a string without the 0b prefix: the decimal branch (marked TBD in the library)"""
     a = c['args'].split(',') if isinstance(c['args'], str) else list(c['args'])
     return not (len(a) >= 2 and a[0] == '30' and a[1] == '62')
+
+
+@pred
+def three_sum_overflows(c):
+    """three_sum of three finite operands (each within the property's bound) whose exact sum rounds to an infinity"""
+    from fractions import Fraction
+    def d(x):
+        return struct.unpack('<d', struct.pack('<Q', x))[0]
+    a = [d(x) for x in ints(c['args'])]
+    r = [d(x) for x in ints(c['impl'])]
+    if len(a) != 3 or len(r) != 3 or not all(math.isfinite(x) for x in a):
+        return False
+    s = sum(Fraction(x) for x in a)
+    limit = Fraction(2) ** 1024 - Fraction(2) ** 970        # largest finite double + half an ulp: from here on RN gives an infinity
+    return abs(s) >= limit and math.isinf(r[0]) and (r[0] > 0) == (s > 0)
